@@ -121,6 +121,33 @@ impl Prop for C10 {
                 Some(case(parts.join(sep), total, "en", "many-parts"))
             },
         ));
+        f.push(Family::new(
+            "as-unit-many-parts",
+            Mode::Full,
+            "'D as|in|to|into U' for D written as 3, 4, 5 and 7 adjacent parts (every cyclic window of second / minute / hour / day / week / month / year, counts 1, 30 or 100 per part, also three equal parts '100 seconds 100 seconds 100 seconds') and U in seconds / minutes / hours / days / weeks: the SUM is rounded down to whole U",
+            move |ch| {
+                let order = [Unit::Year, Unit::Month, Unit::Week, Unit::Day, Unit::Hour, Unit::Minute, Unit::Second];
+                let k = *ch.pick(&[3usize, 4, 5, 7]);
+                let start = ch.choose(7);
+                let c = *ch.pick(&[1i64, 30, 100]);
+                let equal = ch.flag();
+                let mut text = String::new();
+                let mut total = 0i64;
+                for i in 0..k {
+                    let u = if equal { order[(start) % 7] } else { order[(start + i) % 7] };
+                    let (sg, pl) = u.words("en");
+                    if i > 0 {
+                        text.push(' ');
+                    }
+                    text.push_str(&format!("{} {}", c, if c == 1 { sg } else { pl }));
+                    total += dur::amount(c, u);
+                }
+                let target = *ch.pick(&[Unit::Second, Unit::Minute, Unit::Hour, Unit::Day, Unit::Week]);
+                let conn = *ch.pick(&["as", "in", "to", "into"]);
+                let want = (total / target.len()) * target.len();
+                Some(case(format!("{} {} {}", text, conn, target.words("en").1), want, "en", "as-many"))
+            },
+        ));
         {
             let maxn = tier.pick(5, 7);
             f.push(Family::new(
